@@ -648,7 +648,7 @@ def gen_stream(rng, env, counters, n_slots=12, feats=()):
         if slots[i] is not None:
             out.append('%s:' % slots[i][1]); st.shape.append('L'); continue
         k = r.wpick([('call', 4), ('assign', 2), ('fwd', 2), ('cfwd', 2.5), ('back', 2), ('cback', 1.5), ('time', 2 if 'timelabels' in F else 0),
-                     ('interrupt', 0.6 if 'interrupt' in F else 0), ('countback', 1.2 if 'countjump' in F else 0)])
+                     ('interrupt', 0.6 if 'interrupt' in F else 0), ('countback', 1.2 if 'countjump' in F else 0), ('labelref', 0.8 if 'labelref' in F else 0)])
         later = [l for l, p in labels.items() if p > i]
         earlier = [l for l, p in labels.items() if p < i]
         tsuffix = (' @ %d' % r.randint(0, 40)) if ('goto_time' in F and r.chance(0.2)) else ''
@@ -685,6 +685,8 @@ def gen_stream(rng, env, counters, n_slots=12, feats=()):
             out.insert(len(counters), '%s = %d;' % (c, r.pick([1, 2, 3])))
             out.append('if (%s) goto %s%s;' % (form, r.pick(earlier), tsuffix))
             st.njumps += 1; st.nback += 1; st.used.add('countjump')
+        elif k == 'labelref' and labels:
+            l = r.pick(sorted(labels)); out.append('labelref(offsetof(%s), timeof(%s));' % (l, l)); st.used.add('labelref')
         elif k == 'time':
             out.append('+%d:' % r.randint(0, 9)); st.used.add('timelabels')
         elif k == 'interrupt':
@@ -697,7 +699,7 @@ def gen_stream(rng, env, counters, n_slots=12, feats=()):
     return st
 
 
-def gen_near_structured(rng, env, counters, feats=(), mutations=None):
+def gen_near_structured(rng, env, counters, feats=(), mutations=None, sentinel='ins_101();'):
     """Flat label/goto programs that are the desugared forms of nested if/else-if chains, while / do-while loops and loops with
     breaks, with 0-2 *perturbations* (a jump retargeted to another label, a label moved by one statement, a `goto end` dropped,
     a jump duplicated): the inputs on which a structure-recovering decompiler is most likely to take a near-miss for the real thing.
@@ -788,6 +790,11 @@ def gen_near_structured(rng, env, counters, feats=(), mutations=None):
             fw = [i for i in jumps if not items[i][3]]
             if fw:
                 i = r.pick(fw); items.insert(r.randint(0, i), items[i])
+    if 'labelref' in F:
+        labs = [it[1] for it in items if it[0] == 'l']
+        for _ in range(r.pick([0, 0, 1, 1, 2])):
+            if labs:
+                l = r.pick(labs); items.insert(r.randint(0, len(items)), ('s', 'labelref(offsetof(%s), timeof(%s));' % (l, l))); st.used.add('labelref')
     # a forward jump must stay forward after label moves: verify, else drop the jump
     pos = {it[1]: k for k, it in enumerate(items) if it[0] == 'l'}
     out = []
@@ -798,6 +805,6 @@ def gen_near_structured(rng, env, counters, feats=(), mutations=None):
             _, c, tgt, back = it
             if tgt not in pos or (pos[tgt] > k) == back: continue
             out.append(('if (%s) goto %s;' % (c, tgt)) if c else 'goto %s;' % tgt)
-    out.append('ins_101();')
+    if sentinel: out.append(sentinel)
     st.text = '{\n' + '\n'.join(out) + '\n}'
     return st
